@@ -7,7 +7,7 @@ from .values import *
 from .sbytes import SBytes
 from . import sbytes as sb
 from .interp import SliceVal, LiveList, ObjDict, _ABSENT, _MISSING
-from .models import (as_sbytes, norm_bytes, is_byteslike, is_strlike, fully_concrete, hashkey, type_of, IterVal,
+from .models import (_k_union, set_insert_all, set_remove_all, set_locate, _is_symkey, as_sbytes, norm_bytes, is_byteslike, is_strlike, fully_concrete, hashkey, type_of, IterVal,
                      values_eq, opaque_str, opaque_bytes, iter_values, any_eq, concretize_, _union_of,
                      dict_sym_lookup, contains)
 from .builtins_model import axiom
@@ -83,7 +83,7 @@ def call_method(I_, recv, name, args, kws, st, ctx, k, node):
             alts.append((key == kk, vv))
             conds.append(key == kk)
         alts.append((z3.Not(z3.Or(*conds)) if conds else z3.BoolVal(True), default))
-        return k(st, _union_of(I_, alts, st))
+        return _k_union(I_, alts, st, k)
       if isinstance(key, (Ref, SBytes)):
         # keys of module-level tables are never symbolic objects
         if isinstance(key, Ref):
@@ -410,17 +410,14 @@ def dict_method(I_, ref, o, name, args, kws, st, ctx, k, node):
 def set_method(I_, ref, o, name, args, kws, st, ctx, k, node):
   data = o.data
   if name == "add":
-    data[hashkey(args[0])] = args[0]
-    return k(st, None)
+    return set_insert_all(I_, ref, [args[0]], st, ctx, lambda st2: k(st2, None), node)
   if name == "discard":
-    data.pop(hashkey(args[0]), None)
-    return k(st, None)
+    return set_remove_all(I_, ref, [args[0]], st, ctx, lambda st2: k(st2, None), node)
   if name == "remove":
-    hk = hashkey(args[0])
-    if hk in data:
-      del data[hk]
-      return k(st, None)
-    return I_.raise_exc(st, ctx, KeyError, "key", node)
+    def found(st2, hk):
+      del st2.obj(ref).data[hk]
+      return k(st2, None)
+    return set_locate(I_, ref, args[0], st, ctx, found, lambda st2: I_.raise_exc(st2, ctx, KeyError, "key", node), node)
   if name == "clear":
     data.clear()
     return k(st, None)
@@ -430,13 +427,15 @@ def set_method(I_, ref, o, name, args, kws, st, ctx, k, node):
     def got(st2, items):
       d = st2.obj(ref).data
       if name == "update":
-        for v in items:
-          d[hashkey(v)] = v
-        return k(st2, None)
+        return set_insert_all(I_, ref, items, st2, ctx, lambda st3: k(st3, None), node)
       if name == "difference_update":
-        for v in items:
-          d.pop(hashkey(v), None)
-        return k(st2, None)
+        return set_remove_all(I_, ref, items, st2, ctx, lambda st3: k(st3, None), node)
+      if any(_is_symkey(hk) for hk in d) or any(is_sym(v) for v in items):
+        if name == "intersection":
+          raise Unsupported("set.intersection with symbolic elements")
+        nref = st2.alloc("set", set, dict(d))
+        f = set_insert_all if name == "union" else set_remove_all
+        return f(I_, nref, items, st2, ctx, lambda st3: k(st3, nref), node)
       nd = dict(d)
       if name == "union":
         for v in items:
